@@ -9,11 +9,11 @@ import (
 
 func init() {
 	register(&Property{
-		ID:        "C27",
-		Title:     "A range query equals instant queries at each step",
-		Technique: "field-transfer comparison of the two evaluator literals of Engine.execEvalStmt (an instant query is a range query with one step: every field but the three time fields agrees); go/cfg and linear-form rules for the step loops of rangeEval / rangeEvalAgg and for gatherVector (each step sees exactly the samples at its own timestamp, writes its result at that timestamp, and starts from re-initialised per-step buffers); the window-reuse rules of C28.R2 are the part of this property that concerns range vectors",
-		DesignRef: "DESIGN.md §5 C27",
-		Level: "Decides that both kinds of query run the same evaluator code with parameters that differ only in (start, end, interval): the instant evaluator is built with start = end and one step, all other fields equal to the range evaluator's; the step loop visits start, start+interval, … ≤ end; at each step the helper's time is the step time, the input vectors are gathered for that time from samples whose timestamp equals it, the result is recorded at it; the output buffer and the signature buffers are re-initialised per step; per-step offsets are applied identically (C28.R1/R3: reference time = step time − offset). Does not decide that the functions evaluated at a step are free of state carried from earlier steps.",
+		ID:             "C27",
+		Title:          "A range query equals instant queries at each step",
+		Technique:      "field-transfer comparison of the two evaluator literals of Engine.execEvalStmt (an instant query is a range query with one step: every field but the three time fields agrees); go/cfg and linear-form rules for the step loops of rangeEval / rangeEvalAgg and for gatherVector (each step sees exactly the samples at its own timestamp, writes its result at that timestamp, and starts from re-initialised per-step buffers); the window-reuse rules of C28.R2 are the part of this property that concerns range vectors",
+		DesignRef:      "DESIGN.md §5 C27",
+		Level:          "Decides that both kinds of query run the same evaluator code with parameters that differ only in (start, end, interval): the instant evaluator is built with start = end and one step, all other fields equal to the range evaluator's; the step loop visits start, start+interval, … ≤ end; at each step the helper's time is the step time, the input vectors are gathered for that time from samples whose timestamp equals it, the result is recorded at it; the output buffer and the signature buffers are re-initialised per step; per-step offsets are applied identically (C28.R1/R3: reference time = step time − offset). Does not decide that the functions evaluated at a step are free of state carried from earlier steps.",
 		Note:           "Trusted: go/packages, go/types, go/cfg; rule tables in checker/c27.go.",
 		Covers:         "promql: Engine.execEvalStmt (evaluator literals), evaluator.rangeEval, evaluator.gatherVector, evaluator.rangeEvalAgg (step loop).",
 		NotCover:       "state that individual functions or aggregations keep across steps (EvalNodeHelper caches), float results, the storage iterators; the incremental range-vector window is decided under C28.R2.",
